@@ -4,7 +4,7 @@ from __future__ import annotations
 from sa.terms import C, CallT, P, SubC, linear_cmp, show, show_fact
 from sa.walker import State
 
-from . import CHECKER, VSIG, call_events, fn_site, loc, mentions
+from . import own_site, CHECKER, VSIG, call_events, flat, fn_site, loc, mentions
 
 EXPLANATION = (
     "Walk of verify_root (all paths, callees through conditional summaries). On every accepting path: R1 both arguments "
@@ -18,7 +18,7 @@ EXPLANATION = (
 RULE_TEXT = "obligations per accepting path x {checker, type, version, verify-old, verify-new} and per distinct rejection cause; all non-trivial (fact or event matching on symbolic paths)"
 
 
-def run(ctx):
+def run(ctx, deps=True):
     eng = ctx.eng
     ctx.assume("A1", "A3", "A8")
     sm = eng.walk("authentication.verify_root")
@@ -87,16 +87,17 @@ def run(ctx):
 
     # ---- what "signatures meet a key set and threshold" means is C01's rule set, re-evaluated here:
     # a root update is only as sound as the envelope verifier it calls
-    from . import c01
+    if deps:
+        from . import c01
 
-    c01.run(ctx.sub("DEP-C01"))
+        c01.run(ctx.sub("DEP-C01"))
 
 
 def _cause(eng, p, x, T, U, tv, uv, pairs):
     top = x.chain[0]
     facts = p.facts
     st = State(facts=facts)
-    if len(x.chain) == 1 and x.origin == "explicit":
+    if x.origin == "explicit" and all(own_site(eng, st_, "authentication.verify_root") for st_ in x.chain):
         for X, who in ((T, "trusted"), (U, "new")):
             if ("ne", SubC(X, "signed", "type"), C("root")) in facts:
                 return "%s root declares type root" % who
@@ -105,8 +106,8 @@ def _cause(eng, p, x, T, U, tv, uv, pairs):
         if any(f[0] == "ne" and mentions(f, tv) and mentions(f, uv) for f in facts):
             return "new.version == trusted.version + 1"
         return None
-    for ev in p.events:
-        if ev[0] == "call" and ev[1] == top and ev[5][0] == "raise":
+    for ev in flat(p):
+        if ev[0] == "call" and ev[5][0] == "raise" and (ev[1] == top or ev[1] in x.chain):
             if ev[2] == CHECKER and ev[3] and ev[3][0] in (T, U):
                 return "well-formedness of the %s root" % ("trusted" if ev[3][0] == T else "new")
             if ev[2] == VSIG and len(ev[3]) >= 4 and ev[3][0] == U and ev[3][3] == C(True):
